@@ -236,6 +236,8 @@ struct Opts {
     // state-based guards that keep small tiers small: special coins / packages only while the pool holds no menu tx,
     // time jumps only with a non-empty pool, reorgs only when they can touch the pool or a mined block
     bool guarded{false};
+    bool n_only_when_empty{false};       // N / N3 only while the pool holds no menu tx (one seed tx per history)
+    int child_outs{2};                   // C spends outputs 0..child_outs-1
     bool pe_all{true};                   // all PE variants (else only PE:b:z:k and PE:m:z:k)
     bool test_before_submit{false};      // C28: run test_accept first, in the same transition
     std::function<std::string(struct Sim&, const struct Snap&)> obs{}; // optional monitor-defined observation, captured before / between / after
@@ -763,7 +765,7 @@ struct Sim {
         for (size_t i = 0; i < addr.size(); i++) {
             std::string I = std::to_string(i);
             const CTransaction& t = *s.txs[addr[i]].tx;
-            if (o.has("C")) for (int out = 0; out < 2; out++) for (char f : o.child_fees) {
+            if (o.has("C")) for (int out = 0; out < o.child_outs; out++) for (char f : o.child_fees) {
                 cand.push_back("C:" + I + ":" + std::to_string(out) + ":" + std::to_string(t.version) + ":" + S(f));
             }
             if (o.has("CV")) cand.push_back("C:" + I + ":1:" + std::to_string(t.version == 3 ? 2 : 3) + ":h");
@@ -793,6 +795,7 @@ struct Sim {
         bool menu_tx_in_pool = false;
         for (auto& t : s.txs) if (!fillers.count(t.tx->GetHash())) menu_tx_in_pool = true;
         for (auto& c : cand) {
+            if (o.n_only_when_empty && menu_tx_in_pool && SplitLabel(c)[0] == "N") continue;
             if (o.guarded) {
                 std::string k = SplitLabel(c)[0];
                 if (menu_tx_in_pool && (k == "NY" || k == "NL" || k == "NQ" || k == "PK" || k == "PE" || k == "D" || c.rfind("P:d", 0) == 0 || c.rfind("P:n", 0) == 0)) continue;
